@@ -1,0 +1,89 @@
+//go:build verif
+
+// Verification hooks (build tag "verif"). Add-only: thin exported wrappers around
+// unexported pure functions and constants, used by the external verification harness.
+
+package protocol
+
+import (
+	"github.com/enfein/mieru/v3/pkg/appctl/appctlpb"
+	"github.com/enfein/mieru/v3/pkg/cipher"
+	"github.com/enfein/mieru/v3/pkg/common"
+)
+
+// VerifConsts exports the protocol constants the verification models mention.
+func VerifConsts() map[string]int64 {
+	return map[string]int64{
+		"metadataLength":               MetadataLength,
+		"maxSessionOpenPayload":        MaxSessionOpenPayload,
+		"maxPDU":                       maxPDU,
+		"txCountLimit":                 txCountLimit,
+		"packetOverhead":               packetOverhead,
+		"packetNonHeaderPosition":      packetNonHeaderPosition,
+		"streamOverhead":               streamOverhead,
+		"lowEntropyChunkLen":           lowEntropyChunkLen,
+		"segmentTreeCapacity":          segmentTreeCapacity,
+		"minWindowSize":                minWindowSize,
+		"maxWindowSize":                maxWindowSize,
+		"earlyRetransmission":          earlyRetransmission,
+		"earlyRetransmissionLimit":     earlyRetransmissionLimit,
+		"nonceSize":                    cipher.DefaultNonceSize,
+		"aeadOverhead":                 cipher.DefaultOverhead,
+		"keyLen":                       cipher.DefaultKeyLen,
+		"closeConnRequest":             int64(closeConnRequest),
+		"closeConnResponse":            int64(closeConnResponse),
+		"openSessionRequest":           int64(openSessionRequest),
+		"openSessionResponse":          int64(openSessionResponse),
+		"closeSessionRequest":          int64(closeSessionRequest),
+		"closeSessionResponse":         int64(closeSessionResponse),
+		"dataClientToServer":           int64(dataClientToServer),
+		"dataServerToClient":           int64(dataServerToClient),
+		"ackClientToServer":            int64(ackClientToServer),
+		"ackServerToClient":            int64(ackServerToClient),
+		"dataClientToServerLowEntropy": int64(dataClientToServerLowEntropy),
+		"dataServerToClientLowEntropy": int64(dataServerToClientLowEntropy),
+		"statusOK":                     int64(statusOK),
+		"statusQuotaExhausted":         int64(statusQuotaExhausted),
+		"streamTransport":              int64(common.StreamTransport),
+		"packetTransport":              int64(common.PacketTransport),
+		"middlePadding":                int64(middlePadding),
+		"endPadding":                   int64(endPadding),
+	}
+}
+
+func VerifMaxFragmentSize(mtu int, transport int, mode int) (int, error) {
+	return maxFragmentSize(mtu, common.TransportProtocol(transport), appctlpb.LowEntropyMode(mode))
+}
+
+func VerifMaxPaddingSize(mtu int, transport int, fragmentSize int, existingPaddingSize int) int {
+	return maxPaddingSize(mtu, common.TransportProtocol(transport), fragmentSize, existingPaddingSize)
+}
+
+func VerifMaxPaddingSizeWithTrafficPattern(mtu int, transport int, fragmentSize int, existingPaddingSize int, pattern *appctlpb.TrafficPattern, position int) int {
+	return maxPaddingSizeWithTrafficPattern(mtu, common.TransportProtocol(transport), fragmentSize, existingPaddingSize, pattern, paddingPosition(position))
+}
+
+func VerifLowEntropyEncodedPayloadLen(extractedPayloadLen int, mode int) (uint16, error) {
+	return lowEntropyEncodedPayloadLen(extractedPayloadLen, appctlpb.LowEntropyMode(mode))
+}
+
+func VerifEncodeLowEntropy(src []byte, mode int, halfMask uint32, rotation int, paddingBit uint8) ([]byte, error) {
+	return encodeLowEntropyPayloadWithPaddingBit(src, appctlpb.LowEntropyMode(mode), halfMask, appctlpb.LowEntropyMaskRotation(rotation), paddingBit)
+}
+
+func VerifDecodeLowEntropy(encoded []byte, extractedPayloadLen int, mode int, halfMask uint32, rotation int) ([]byte, error) {
+	return decodeLowEntropyPayload(encoded, extractedPayloadLen, appctlpb.LowEntropyMode(mode), halfMask, appctlpb.LowEntropyMaskRotation(rotation))
+}
+
+func VerifValidateLowEntropyMeta(protocol uint8, mode uint8, halfMask uint32, rotation uint8, payloadLen uint16, extractedPayloadLen uint16) error {
+	return validateLowEntropyDataAckMetadata(&dataAckStruct{
+		baseStruct:             baseStruct{protocol: protocol},
+		lowEntropyMode:         mode,
+		payloadLen:             payloadLen,
+		lowEntropyMask:         halfMask,
+		extractedPayloadLen:    extractedPayloadLen,
+		lowEntropyMaskRotation: rotation,
+	})
+}
+
+func VerifLowEntropyPaddingBit() uint8 { return lowEntropyPaddingBit }
